@@ -12,7 +12,10 @@ COMPS = (ast.ListComp, ast.SetComp, ast.DictComp, ast.GeneratorExp)
 
 PARAM_FORMS = ['x', 'x=0', '*x', '**x', '*, x=0', 'x, /', '_p, *, x', '_p=0, *x']
 BIND_FORMS = ['x = %d', 'for x in (%d,): pass', 'with _use(%d) as x: pass', 'import os as x  # %d', '(x := %d)', 'x: int = %d', '(x, _q) = (%d, 0)',
-              'try: pass\nexcept Exception as x: pass  # %d', 'from os import path as x  # %d', '[x, *_q] = (%d,)']
+              'try: pass\nexcept Exception as x: pass  # %d', 'from os import path as x  # %d', '[x, *_q] = (%d,)',
+              # captures of a match statement: bare, with `as`, starred, the rest of a mapping, inside a class pattern
+              'match %d:\n    case x: pass', 'match %d:\n    case int() as x: pass', 'match (%d,):\n    case [_q, *x]: pass',
+              'match {"k": %d}:\n    case {"k": _q, **x}: pass', 'match %d:\n    case int(real=x) | complex(real=x): pass']
 
 
 def render(chain, variant=0):
